@@ -463,10 +463,11 @@ def gen_specs(ctx, rng):
     files = [f for f in files if (core.REPO / TESTFILES / f).exists()]
     specs = []
     if ctx.thorough:
+        both = {"k_inc_w0", "k_rinc_w0", "k_op33_inc", "k_prol_w3", "k_wr_w0", "k_inc_any", "k_rw_w3", "k_dom_rw"}
         for k in singles:
-            for dm in (False, True):
+            for dm in ((False, True) if k in both else (rng.random() < 0.5,)):
                 specs.append({"kind": "gen", "calls": [k], "dm": dm})
-        for _ in range(14):
+        for _ in range(10):
             multi.append([rng.choice(pool) for _ in range(rng.choice([2, 2, 3]))])
         for calls in multi:
             specs.append({"kind": "gen", "calls": calls, "dm": rng.random() < 0.5})
@@ -646,7 +647,7 @@ def run(ctx):
     ex = Explorer(ctx, impl, corpus)
     rng = ctx.rng("specs")
     specs = gen_specs(ctx, rng)
-    maxlen, width = ctx.pick(3, 5), ctx.pick(3, 4)
+    maxlen, width = ctx.pick(3, 5), ctx.pick(3, 3)
     nbuilt = 0
     for spec in specs:
         try:
